@@ -5,7 +5,7 @@ peer / event / ledger invariants.
 -/
 namespace Coap.Sessions
 
-/-- a function on sessions that only touches `last`, `conActive`, `delayq` -/
+/-- a function on sessions that only touches `last`, `conActive`, `delayq`, `notes`, `closed`, `pend` -/
 def Benign (f : Sess → Sess) : Prop := ∀ s, (f s).sid = s.sid ∧ (f s).ref = s.ref ∧ (f s).peer = s.peer
 
 /-- a function on holders that keeps what it points to, its ledger id and whether it is an allocation -/
@@ -17,6 +17,8 @@ structure Closed (P : St → Prop) : Prop where
   addHolder : ∀ st sid k, P st → (∃ s ∈ st.sessions, s.sid = sid) → P (st.addHolder sid k)
   dropHolder : ∀ st x, P st → P (st.dropHolder x)
   reclaim : ∀ st sid, P st → P (st.reclaim sid)
+  addPartial : ∀ st sid, P st → (∃ s ∈ st.sessions, s.sid = sid) → P (st.addPartial sid)
+  dropPartial : ∀ st sid, P st → P (st.dropPartial sid)
   newSession : ∀ st p, P st → st.lookup p = none → (p.lport, p.proto) ∈ st.eps → P (st.newSession p)
   mapHolders : ∀ st g, P st → HBenign g → P { st with holders := st.holders.map g }
   misc : ∀ st (now timeout maxIdle : Nat) (res dirty : List Nat), P st →
@@ -82,7 +84,7 @@ theorem fireAsync {st : St} (h : P st) (now : Nat) (x : Holder) : P (st.fireAsyn
   · split
     · apply c.dropHolder
       refine c.benign _ _ _ (c.misc st _ st.timeout st.maxIdle st.resAlive st.dirty h) ?_
-      intro s; exact ⟨rfl, rfl, rfl⟩
+      intro s; dsimp only; split <;> exact ⟨rfl, rfl, rfl⟩
     · exact h
   · exact h
 
@@ -194,6 +196,14 @@ theorem freeEndpoint {st : St} (h : P st) (ep : Nat × Nat) : P (st.freeEndpoint
   unfold St.freeEndpoint
   exact foldl_inv P _ (fun a sid ha => c.reclaim _ _ (c.dropHolders ha _)) _ st h
 
+theorem disconnectSess {st : St} (h : P st) (s : Sess) : P (st.disconnectSess s) := by
+  unfold St.disconnectSess
+  dsimp only
+  apply c.dropHolders
+  apply c.dropPartial
+  refine c.benign _ _ _ (c.dropHolders h _) ?_
+  intro t; exact ⟨rfl, rfl, rfl⟩
+
 end Closed
 
 /-- the session the datagram is handled on exists afterwards (needs only `HInv`'s proof structure; restated for any state) -/
@@ -221,7 +231,20 @@ theorem Closed.step {P : St → Prop} (c : Closed P) {st : St} (h : P st) (e : E
       split
       · exact h
       · rename_i hs
-        exact c.prepareIo (c.serve (c.getSession h p (Or.inr (rxSkip_false_eps hs))) _ r (getSession_live st p))
+        split
+        · split
+          · exact h
+          · rename_i s hl
+            obtain ⟨hm, _⟩ := lookup_some hl
+            split
+            · exact h
+            · dsimp only
+              apply c.prepareIo
+              apply c.serve
+              · refine c.benign _ _ _ h ?_
+                intro t; exact ⟨rfl, rfl, rfl⟩
+              · exact live_updSess s.sid _ (fun _ => rfl) ⟨s, hm, rfl⟩
+        · exact c.prepareIo (c.serve (c.getSession h p (Or.inr (rxSkip_false_eps hs))) _ r (getSession_live st p))
     | rst p =>
       dsimp only
       split
@@ -273,10 +296,54 @@ theorem Closed.step {P : St → Prop} (c : Closed P) {st : St} (h : P st) (e : E
       dsimp only
       split
       · exact h
-      · dsimp only
-        apply c.dropHolders
-        refine c.benign _ _ _ (c.dropHolders h _) ?_
-        intro s; exact ⟨rfl, rfl, rfl⟩
+      · exact c.disconnectSess h _
+    | connect p =>
+      dsimp only
+      split
+      · exact h
+      · rename_i hc
+        split
+        · exact h
+        · rename_i hl
+          have hep : (p.lport, p.proto) ∈ st.eps := by
+            simp only [Bool.or_eq_true, Bool.not_eq_true', decide_eq_false_iff_not, not_or, Decidable.not_not] at hc
+            exact hc.2
+          dsimp only
+          apply c.prepareIo
+          refine c.benign _ _ _ (c.prepareIo (c.newSession _ _ h hl hep)) ?_
+          intro t; exact ⟨rfl, rfl, rfl⟩
+    | partialRx p n =>
+      dsimp only
+      split
+      · exact h
+      · rename_i s hl
+        obtain ⟨hm, _⟩ := lookup_some hl
+        split
+        · exact h
+        · dsimp only
+          apply c.prepareIo
+          have h1 : P (st.updSess s.sid fun t => { t with last := st.now, pend := n }) :=
+            c.benign _ _ _ h (fun t => ⟨rfl, rfl, rfl⟩)
+          split
+          · exact c.addPartial _ _ h1 (live_updSess s.sid _ (fun _ => rfl) ⟨s, hm, rfl⟩)
+          · exact h1
+    | restRx p =>
+      dsimp only
+      split
+      · exact h
+      · split
+        · exact h
+        · dsimp only
+          apply c.prepareIo
+          apply c.dropPartial
+          exact c.benign _ _ _ h (fun t => ⟨rfl, rfl, rfl⟩)
+    | peerClose p =>
+      dsimp only
+      split
+      · exact h
+      · split
+        · exact h
+        · exact c.prepareIo (c.disconnectSess h _)
     | delResource k =>
       dsimp only
       split
@@ -461,12 +528,12 @@ theorem SInv.newSession {st : St} (h : SInv st) (hH : HInv st) (p : Peer) (hl : 
     show a.sid ≠ st.next
     omega
   · intro t ht
-    have ht' : t ∈ st.sessions ++ [⟨st.next, st.nsess, p, 0, st.now, 0, 0, 0⟩] := ht
+    have ht' : t ∈ st.sessions ++ [⟨st.next, st.nsess, p, 0, st.now, 0, 0, 0, false, 0⟩] := ht
     rcases List.mem_append.mp ht' with h1 | h1
     · exact h.ep t h1
     · simp only [List.mem_singleton] at h1; subst h1; exact hp
   · intro x hx
-    have hx' : x ∈ (st.sessions ++ [(⟨st.next, st.nsess, p, 0, st.now, 0, 0, 0⟩ : Sess)]).map (fun s : Sess => s.sid) := hx
+    have hx' : x ∈ (st.sessions ++ [(⟨st.next, st.nsess, p, 0, st.now, 0, 0, 0, false, 0⟩ : Sess)]).map (fun s : Sess => s.sid) := hx
     show List.count _ (st.events ++ [SEvent.new st.next]) = 1 ∧ List.count _ (st.events ++ [SEvent.new st.next]) = 0
     rw [List.map_append, List.mem_append] at hx'
     rcases hx' with h1 | h1
@@ -481,10 +548,10 @@ theorem SInv.newSession {st : St} (h : SInv st) (hH : HInv st) (p : Peer) (hl : 
     have hx1 : x ∉ st.sids ∧ x ≠ st.next := by
       constructor
       · intro hin; apply hx
-        show x ∈ (st.sessions ++ [(⟨st.next, st.nsess, p, 0, st.now, 0, 0, 0⟩ : Sess)]).map (fun s : Sess => s.sid)
+        show x ∈ (st.sessions ++ [(⟨st.next, st.nsess, p, 0, st.now, 0, 0, 0, false, 0⟩ : Sess)]).map (fun s : Sess => s.sid)
         rw [List.map_append]; exact List.mem_append.mpr (Or.inl hin)
       · intro e; apply hx
-        show x ∈ (st.sessions ++ [(⟨st.next, st.nsess, p, 0, st.now, 0, 0, 0⟩ : Sess)]).map (fun s : Sess => s.sid)
+        show x ∈ (st.sessions ++ [(⟨st.next, st.nsess, p, 0, st.now, 0, 0, 0, false, 0⟩ : Sess)]).map (fun s : Sess => s.sid)
         rw [List.map_append]; apply List.mem_append.mpr; right; simp [e]
     show List.count _ (st.events ++ [SEvent.new st.next]) = List.count _ (st.events ++ [SEvent.new st.next]) ∧
       List.count _ (st.events ++ [SEvent.new st.next]) ≤ 1
@@ -502,19 +569,22 @@ theorem SInv.newSession {st : St} (h : SInv st) (hH : HInv st) (p : Peer) (hl : 
 /-! ## the ledger invariant: what the monitor holds live is exactly what the state contains -/
 
 def St.allocHids (st : St) : List Nat := (st.holders.filter (·.kind.isAlloc)).map (·.hid)
-def St.objects (st : St) : List Nat := st.sids ++ st.allocHids ++ st.ctxObjs
+/-- the partly received PDUs hanging off stream sessions -/
+def St.partialIds (st : St) : List Nat := st.partials.map (·.1)
+def St.objects (st : St) : List Nat := st.sids ++ st.allocHids ++ st.ctxObjs ++ st.partialIds
 
 def LInv (st : St) : Prop := ∃ live, runLedger st.ledger [] = some live ∧ ∀ i, live.count i = st.objects.count i
 
 theorem objects_count (st : St) (i : Nat) :
-    st.objects.count i = st.sids.count i + st.allocHids.count i + st.ctxObjs.count i := by
+    st.objects.count i = st.sids.count i + st.allocHids.count i + st.ctxObjs.count i + st.partialIds.count i := by
   simp [St.objects, List.count_append, Nat.add_assoc]
 
 theorem LInv.same {st st' : St} (h : LInv st) (hl : st'.ledger = st.ledger) (h1 : st'.sids = st.sids)
-    (h2 : st'.allocHids = st.allocHids) (h3 : st'.ctxObjs = st.ctxObjs) : LInv st' := by
+    (h2 : st'.allocHids = st.allocHids) (h3 : st'.ctxObjs = st.ctxObjs) (h4 : st'.partialIds = st.partialIds) :
+    LInv st' := by
   obtain ⟨live, hr, hc⟩ := h
   refine ⟨live, by rw [hl]; exact hr, ?_⟩
-  intro i; rw [objects_count, h1, h2, h3, ← objects_count]; exact hc i
+  intro i; rw [objects_count, h1, h2, h3, h4, ← objects_count]; exact hc i
 
 theorem LInv.alloc {st st' : St} (h : LInv st) (j : Nat) (hl : st'.ledger = st.ledger ++ [.alloc j])
     (ho : ∀ i, st'.objects.count i = st.objects.count i + (if j = i then 1 else 0)) : LInv st' := by
@@ -542,11 +612,13 @@ theorem sids_updSess (st : St) (sid : Nat) (f : Sess → Sess) (hf : ∀ s, (f s
 
 theorem LInv.updSess {st : St} (h : LInv st) (sid : Nat) (f : Sess → Sess) (hf : ∀ s, (f s).sid = s.sid) :
     LInv (st.updSess sid f) :=
-  h.same rfl (sids_updSess st sid f hf) rfl rfl
+  h.same rfl (sids_updSess st sid f hf) rfl rfl rfl
 
 theorem sids_addHolder (st : St) (sid : Nat) (k : HKind) : (st.addHolder sid k).sids = st.sids := by
   unfold St.addHolder; split <;> exact sids_updSess st sid _ (fun _ => rfl)
 theorem ctxObjs_addHolder (st : St) (sid : Nat) (k : HKind) : (st.addHolder sid k).ctxObjs = st.ctxObjs := by
+  unfold St.addHolder; split <;> rfl
+theorem partialIds_addHolder (st : St) (sid : Nat) (k : HKind) : (st.addHolder sid k).partialIds = st.partialIds := by
   unfold St.addHolder; split <;> rfl
 theorem allocHids_addHolder (st : St) (sid : Nat) (k : HKind) :
     (st.addHolder sid k).allocHids = if k.isAlloc then st.allocHids ++ [st.next] else st.allocHids := by
@@ -559,10 +631,11 @@ theorem LInv.addHolder {st : St} (h : LInv st) (sid : Nat) (k : HKind) : LInv (s
   by_cases hk : k.isAlloc
   · refine LInv.alloc (st := st) h st.next (by rw [ledger_addHolder]; simp [hk]) ?_
     intro i
-    rw [objects_count, objects_count, sids_addHolder, ctxObjs_addHolder, allocHids_addHolder]
+    rw [objects_count, objects_count, sids_addHolder, ctxObjs_addHolder, allocHids_addHolder, partialIds_addHolder]
     simp only [hk, if_true, List.count_append, List.count_cons, List.count_nil, beq_iff_eq]
     omega
   · refine LInv.same (st := st) h (by rw [ledger_addHolder]; simp [hk]) (sids_addHolder st sid k) ?_ (ctxObjs_addHolder st sid k)
+      (partialIds_addHolder st sid k)
     rw [allocHids_addHolder]; simp [hk]
 
 theorem allocHids_erase (l : List Holder) (x : Holder) (hx : x ∈ l) (i : Nat) :
@@ -580,6 +653,8 @@ theorem sids_dropHolder (st : St) (x : Holder) : (st.dropHolder x).sids = st.sid
   · rfl
 theorem ctxObjs_dropHolder (st : St) (x : Holder) : (st.dropHolder x).ctxObjs = st.ctxObjs := by
   unfold St.dropHolder; split <;> rfl
+theorem partialIds_dropHolder (st : St) (x : Holder) : (st.dropHolder x).partialIds = st.partialIds := by
+  unfold St.dropHolder; split <;> rfl
 theorem allocHids_dropHolder (st : St) (x : Holder) (hx : x ∈ st.holders) :
     (st.dropHolder x).allocHids = ((st.holders.erase x).filter (·.kind.isAlloc)).map (·.hid) := by
   unfold St.dropHolder; simp [hx, St.allocHids]
@@ -596,13 +671,14 @@ theorem LInv.dropHolder {st : St} (h : LInv st) (x : Holder) : LInv (st.dropHold
         simp only [ha, and_self, if_true] at this
         unfold St.allocHids; omega
       · intro i
-        rw [objects_count, objects_count, sids_dropHolder, ctxObjs_dropHolder, allocHids_dropHolder st x hx]
+        rw [objects_count, objects_count, sids_dropHolder, ctxObjs_dropHolder, allocHids_dropHolder st x hx,
+          partialIds_dropHolder]
         have := allocHids_erase st.holders x hx i
         simp only [ha, true_and] at this
         unfold St.allocHids
         omega
     · refine LInv.same (st := st) h (by rw [ledger_dropHolder st x hx]; simp [ha]) (sids_dropHolder st x) ?_
-        (ctxObjs_dropHolder st x)
+        (ctxObjs_dropHolder st x) (partialIds_dropHolder st x)
       rw [allocHids_dropHolder st x hx]
       unfold St.allocHids
       have : List.filter (fun x => x.kind.isAlloc) (st.holders.erase x) = (st.holders.filter (·.kind.isAlloc)).erase x := by
@@ -649,6 +725,68 @@ theorem count_sid_one (l : List Sess) (hpw : l.Pairwise (fun a b => a.peer ≠ b
       simp only [List.map_cons, List.count_cons]
       rw [ih hpw.2 e]; simp [hne]
 
+theorem LInv.freeAll : ∀ (C : List Nat) (L : List AllocEvent) (live A : List Nat),
+    runLedger L [] = some live → (∀ i, live.count i = A.count i + C.count i) →
+    ∃ live', runLedger (L ++ C.map .free) [] = some live' ∧ ∀ i, live'.count i = A.count i := by
+  intro C
+  induction C with
+  | nil => intro L live A hr hc; exact ⟨live, by simpa using hr, by simpa using hc⟩
+  | cons j t ih =>
+    intro L live A hr hc
+    have hm : j ∈ live := List.count_pos_iff.mp (by have := hc j; simp [List.count_cons] at this; omega)
+    have := ih (L ++ [.free j]) (live.erase j) A (by rw [runLedger_append, hr]; simp [runLedger, hm])
+      (by intro i; rw [count_erase_nat, hc, List.count_cons]; simp; split <;> omega)
+    simpa using this
+
+/-- freeing a list `C` of objects that are all there -/
+theorem LInv.freeList {st st' : St} (h : LInv st) (C : List Nat) (hl : st'.ledger = st.ledger ++ C.map .free)
+    (ho : ∀ i, st.objects.count i = st'.objects.count i + C.count i) : LInv st' := by
+  obtain ⟨live, hr, hc⟩ := h
+  obtain ⟨live', hr', hc'⟩ := LInv.freeAll C st.ledger live st'.objects hr (by intro i; rw [hc, ho])
+  exact ⟨live', by rw [hl]; exact hr', hc'⟩
+
+theorem count_filter_split (l : List (Nat × Nat)) (sid i : Nat) :
+    (l.map (·.1)).count i =
+      ((l.filter (fun x => x.2 != sid)).map (·.1)).count i + ((l.filter (fun x => x.2 == sid)).map (·.1)).count i := by
+  induction l with
+  | nil => rfl
+  | cons a t ih =>
+    by_cases c : a.2 = sid
+    · simp only [List.filter_cons, c, bne_self_eq_false, Bool.false_eq_true, if_false, beq_self_eq_true, if_true,
+        List.map_cons, List.count_cons]
+      rw [ih]; omega
+    · have c1 : (a.2 != sid) = true := by simpa using c
+      have c2 : (a.2 == sid) = false := by simpa using c
+      simp only [List.filter_cons, c1, c2, if_true, Bool.false_eq_true, if_false, List.map_cons, List.count_cons]
+      rw [ih]; omega
+
+theorem LInv.dropPartial {st : St} (h : LInv st) (sid : Nat) : LInv (st.dropPartial sid) := by
+  refine LInv.freeList (st := st) h ((st.partials.filter (fun x => x.2 == sid)).map (·.1)) ?_ ?_
+  · show st.ledger ++ _ = st.ledger ++ _
+    rw [List.map_map]; rfl
+  · intro i
+    rw [objects_count, objects_count]
+    have e1 : (st.dropPartial sid).sids = st.sids := rfl
+    have e2 : (st.dropPartial sid).allocHids = st.allocHids := rfl
+    have e3 : (st.dropPartial sid).ctxObjs = st.ctxObjs := rfl
+    have e4 : (st.dropPartial sid).partialIds = (st.partials.filter (fun x => x.2 != sid)).map (·.1) := rfl
+    rw [e1, e2, e3, e4]
+    have := count_filter_split st.partials sid i
+    unfold St.partialIds
+    omega
+
+theorem LInv.addPartial {st : St} (h : LInv st) (sid : Nat) : LInv (st.addPartial sid) := by
+  refine LInv.alloc (st := st) h st.next rfl ?_
+  intro i
+  rw [objects_count, objects_count]
+  have e1 : (st.addPartial sid).sids = st.sids := rfl
+  have e2 : (st.addPartial sid).allocHids = st.allocHids := rfl
+  have e3 : (st.addPartial sid).ctxObjs = st.ctxObjs := rfl
+  have e4 : (st.addPartial sid).partialIds = st.partialIds ++ [st.next] := by simp [St.partialIds, St.addPartial]
+  rw [e1, e2, e3, e4, List.count_append]
+  simp only [List.count_cons, List.count_nil, beq_iff_eq]
+  omega
+
 theorem LInv.reclaim {st : St} (h : LInv st) (hS : SInv st) (sid : Nat) : LInv (st.reclaim sid) := by
   unfold St.reclaim
   split
@@ -659,12 +797,18 @@ theorem LInv.reclaim {st : St} (h : LInv st) (hS : SInv st) (sid : Nat) : LInv (
     · exact h
     · have h1 := count_sid_one st.sessions hS.pw s hm
       rw [hsid] at h1
-      refine LInv.free (st := st) h sid ?_ rfl ?_
-      · rw [objects_count]; unfold St.sids; omega
+      have hd := LInv.dropPartial h sid
+      refine LInv.free (st := st.dropPartial sid) hd sid ?_ rfl ?_
+      · rw [objects_count]
+        have e1 : (st.dropPartial sid).sids = st.sids := rfl
+        rw [e1]; unfold St.sids; omega
       · intro i
         rw [objects_count, objects_count]
-        show ((st.sessions.filter (fun t => t.sid ≠ sid)).map (·.sid)).count i + st.allocHids.count i + _ = _
+        show ((st.sessions.filter (fun t => t.sid ≠ sid)).map (·.sid)).count i + (st.dropPartial sid).allocHids.count i +
+          (st.dropPartial sid).ctxObjs.count i + (st.dropPartial sid).partialIds.count i = _
         rw [count_sids_filter]
+        have e1 : (st.dropPartial sid).sids = st.sids := rfl
+        rw [e1]
         by_cases e : i = sid
         · subst e; simp; unfold St.sids; omega
         · have : ¬ sid = i := fun e' => e e'.symm
@@ -677,7 +821,8 @@ theorem LInv.newSession {st : St} (h : LInv st) (p : Peer) : LInv (st.newSession
   have e1 : (st.newSession p).allocHids = st.allocHids := rfl
   have e2 : (st.newSession p).ctxObjs = st.ctxObjs := rfl
   have e3 : (st.newSession p).sids = st.sids ++ [st.next] := by simp [St.sids, St.newSession]
-  rw [e1, e2, e3, List.count_append]
+  have e4 : (st.newSession p).partialIds = st.partialIds := rfl
+  rw [e1, e2, e3, e4, List.count_append]
   simp only [List.count_cons, List.count_nil, beq_iff_eq]
   omega
 
@@ -693,31 +838,75 @@ theorem allocHids_map (l : List Holder) (g : Holder → Holder) (hg : HBenign g)
 
 theorem LInv.mapHolders {st : St} (h : LInv st) (g : Holder → Holder) (hg : HBenign g) :
     LInv { st with holders := st.holders.map g } :=
-  h.same rfl rfl (allocHids_map st.holders g hg) rfl
-
-theorem LInv.freeAll : ∀ (C : List Nat) (L : List AllocEvent) (live A : List Nat),
-    runLedger L [] = some live → (∀ i, live.count i = A.count i + C.count i) →
-    ∃ live', runLedger (L ++ C.map .free) [] = some live' ∧ ∀ i, live'.count i = A.count i := by
-  intro C
-  induction C with
-  | nil => intro L live A hr hc; exact ⟨live, by simpa using hr, by simpa using hc⟩
-  | cons j t ih =>
-    intro L live A hr hc
-    have hm : j ∈ live := List.count_pos_iff.mp (by have := hc j; simp [List.count_cons] at this; omega)
-    have := ih (L ++ [.free j]) (live.erase j) A (by rw [runLedger_append, hr]; simp [runLedger, hm])
-      (by intro i; rw [count_erase_nat, hc, List.count_cons]; simp; split <;> omega)
-    simpa using this
+  h.same rfl rfl (allocHids_map st.holders g hg) rfl rfl
 
 theorem LInv.teardownEnd {st : St} (h : LInv st) :
     LInv { (st.freeObjs st.ctxObjs) with ctxObjs := [], resAlive := [], freed := true } := by
   obtain ⟨live, hr, hc⟩ := h
-  obtain ⟨live', hr', hc'⟩ := LInv.freeAll st.ctxObjs st.ledger live (st.sids ++ st.allocHids) hr
-    (by intro i; rw [hc, objects_count, List.count_append])
+  obtain ⟨live', hr', hc'⟩ := LInv.freeAll st.ctxObjs st.ledger live (st.sids ++ st.allocHids ++ st.partialIds) hr
+    (by intro i; rw [hc, objects_count, List.count_append, List.count_append]; omega)
   refine ⟨live', hr', ?_⟩
   intro i; rw [hc' i, objects_count]
-  show _ = st.sids.count i + st.allocHids.count i + 0
-  rw [List.count_append]; omega
+  show _ = st.sids.count i + st.allocHids.count i + 0 + st.partialIds.count i
+  rw [List.count_append, List.count_append]; omega
 
+
+/-! ## partly received PDUs hang off LIVE sessions -/
+
+/-- every `session->partial_pdu` the ledger knows belongs to a session that is in its endpoint's table -/
+def PInv (st : St) : Prop := ∀ x ∈ st.partials, ∃ s ∈ st.sessions, s.sid = x.2
+
+theorem PInv.updSess {st : St} (h : PInv st) (sid : Nat) (f : Sess → Sess) (hf : ∀ s, (f s).sid = s.sid) :
+    PInv (st.updSess sid f) := fun x hx => live_updSess sid f hf (h x hx)
+
+theorem PInv.same {st st' : St} (h : PInv st) (h1 : st'.sessions = st.sessions) (h2 : st'.partials = st.partials) :
+    PInv st' := by
+  intro x hx; rw [h2] at hx; rw [h1]; exact h x hx
+
+theorem PInv.addHolder {st : St} (h : PInv st) (sid : Nat) (k : HKind) : PInv (st.addHolder sid k) := by
+  unfold St.addHolder
+  split <;> exact fun x hx => live_updSess sid _ (fun _ => rfl) (h x hx)
+
+theorem PInv.dropHolder {st : St} (h : PInv st) (y : Holder) : PInv (st.dropHolder y) := by
+  intro x hx
+  have hx' : x ∈ st.partials := by
+    unfold St.dropHolder at hx; split at hx <;> exact hx
+  exact live_dropHolder y (h x hx')
+
+theorem PInv.dropPartial {st : St} (h : PInv st) (sid : Nat) : PInv (st.dropPartial sid) := by
+  intro x hx
+  have hx' : x ∈ st.partials.filter (fun x => x.2 != sid) := hx
+  exact h x (List.mem_filter.mp hx').1
+
+theorem PInv.addPartial {st : St} (h : PInv st) (sid : Nat) (hl : ∃ s ∈ st.sessions, s.sid = sid) :
+    PInv (st.addPartial sid) := by
+  intro x hx
+  have hx' : x ∈ st.partials ++ [(st.next, sid)] := hx
+  rcases List.mem_append.mp hx' with h1 | h1
+  · exact h x h1
+  · simp only [List.mem_singleton] at h1; subst h1; exact hl
+
+theorem PInv.reclaim {st : St} (h : PInv st) (sid : Nat) : PInv (st.reclaim sid) := by
+  unfold St.reclaim
+  split
+  · exact h
+  · split
+    · exact h
+    · intro x hx
+      have hx' : x ∈ st.partials.filter (fun x => x.2 != sid) := hx
+      obtain ⟨hx1, hx2⟩ := List.mem_filter.mp hx'
+      obtain ⟨s, hs, e⟩ := h x hx1
+      refine ⟨s, ?_, e⟩
+      show s ∈ st.sessions.filter (fun t => t.sid ≠ sid)
+      apply List.mem_filter.mpr
+      refine ⟨hs, ?_⟩
+      have : x.2 ≠ sid := by simpa using hx2
+      simp [e]; exact this
+
+theorem PInv.newSession {st : St} (h : PInv st) (p : Peer) : PInv (st.newSession p) := by
+  intro x hx
+  obtain ⟨s, hs, e⟩ := h x hx
+  exact ⟨s, List.mem_append.mpr (Or.inl hs), e⟩
 
 /-! ## everything together -/
 
@@ -725,24 +914,33 @@ structure Inv (st : St) : Prop where
   H : HInv st
   S : SInv st
   L : LInv st
+  P : PInv st
+
+theorem HInv.addPartial {st : St} (h : HInv st) (sid : Nat) : HInv (st.addPartial sid) :=
+  ⟨h.ref, h.live, fun t ht => Nat.lt_succ_of_lt (h.fresh t ht)⟩
 
 theorem Inv.closed : Closed Inv where
   benign st sid f h hf :=
     ⟨h.H.updSess_benign sid f (fun s => ⟨(hf s).1, (hf s).2.1⟩), h.S.updSess sid f (fun s => ⟨(hf s).1, (hf s).2.2⟩),
-     h.L.updSess sid f (fun s => (hf s).1)⟩
+     h.L.updSess sid f (fun s => (hf s).1), h.P.updSess sid f (fun s => (hf s).1)⟩
   refRelease st sid h := by
     rw [updSess_updSess st sid Sess.reference Sess.release (fun _ => rfl)]
     exact ⟨h.H.updSess_benign sid _ (fun s => ⟨rfl, by simp [Sess.reference, Sess.release]⟩),
-      h.S.updSess sid _ (fun s => ⟨rfl, rfl⟩), h.L.updSess sid _ (fun s => rfl)⟩
-  addHolder st sid k h hl := ⟨h.H.addHolder sid k hl, h.S.addHolder sid k, h.L.addHolder sid k⟩
-  dropHolder st x h := ⟨h.H.dropHolder x, h.S.dropHolder x, h.L.dropHolder x⟩
-  reclaim st sid h := ⟨h.H.reclaim sid, h.S.reclaim sid, h.L.reclaim h.S sid⟩
-  newSession st p h hl hp := ⟨h.H.newSession p, h.S.newSession h.H p hl hp, h.L.newSession p⟩
+      h.S.updSess sid _ (fun s => ⟨rfl, rfl⟩), h.L.updSess sid _ (fun s => rfl), h.P.updSess sid _ (fun s => rfl)⟩
+  addHolder st sid k h hl := ⟨h.H.addHolder sid k hl, h.S.addHolder sid k, h.L.addHolder sid k, h.P.addHolder sid k⟩
+  dropHolder st x h := ⟨h.H.dropHolder x, h.S.dropHolder x, h.L.dropHolder x, h.P.dropHolder x⟩
+  reclaim st sid h := ⟨h.H.reclaim sid, h.S.reclaim sid, h.L.reclaim h.S sid, h.P.reclaim sid⟩
+  addPartial st sid h hl :=
+    ⟨h.H.addPartial sid, h.S.same rfl rfl rfl (Nat.le_succ _), h.L.addPartial sid, h.P.addPartial sid hl⟩
+  dropPartial st sid h :=
+    ⟨h.H.congr rfl rfl rfl, h.S.same rfl rfl rfl (Nat.le_refl _), h.L.dropPartial sid, h.P.dropPartial sid⟩
+  newSession st p h hl hp := ⟨h.H.newSession p, h.S.newSession h.H p hl hp, h.L.newSession p, h.P.newSession p⟩
   mapHolders st g h hg :=
-    ⟨h.H.mapHolders g (fun x => (hg x).1), h.S.same rfl rfl rfl (Nat.le_refl _), h.L.mapHolders g hg⟩
+    ⟨h.H.mapHolders g (fun x => (hg x).1), h.S.same rfl rfl rfl (Nat.le_refl _), h.L.mapHolders g hg, h.P.same rfl rfl⟩
   misc st now timeout maxIdle res dirty h :=
-    ⟨h.H.congr rfl rfl rfl, h.S.same rfl rfl rfl (Nat.le_refl _), h.L.same rfl rfl rfl rfl⟩
-  teardownEnd st h := ⟨h.H.congr rfl rfl rfl, h.S.same rfl rfl rfl (Nat.le_refl _), h.L.teardownEnd⟩
+    ⟨h.H.congr rfl rfl rfl, h.S.same rfl rfl rfl (Nat.le_refl _), h.L.same rfl rfl rfl rfl rfl, h.P.same rfl rfl⟩
+  teardownEnd st h :=
+    ⟨h.H.congr rfl rfl rfl, h.S.same rfl rfl rfl (Nat.le_refl _), h.L.teardownEnd, h.P.same rfl rfl⟩
 
 theorem runLedger_allocs (l : List Nat) : ∀ live, runLedger (l.map .alloc) live = some (l.reverse ++ live) := by
   induction l with
@@ -750,7 +948,7 @@ theorem runLedger_allocs (l : List Nat) : ∀ live, runLedger (l.map .alloc) liv
   | cons a t ih => intro live; simp [runLedger, ih]
 
 theorem Inv.init (eps : List (Nat × Nat)) (nres : Nat) : Inv (St.init eps nres) := by
-  refine ⟨HInv.init eps nres, ?_, ?_⟩
+  refine ⟨HInv.init eps nres, ?_, ?_, fun x hx => by simp [St.init] at hx⟩
   · constructor
     · simp [St.init]
     · intro s hs; simp [St.init] at hs
@@ -759,7 +957,7 @@ theorem Inv.init (eps : List (Nat × Nat)) (nres : Nat) : Inv (St.init eps nres)
     · intro x hx; simp [St.init] at hx
   · refine ⟨_, runLedger_allocs _ [], ?_⟩
     intro i
-    simp [St.init, St.objects, St.sids, St.allocHids, List.count_append]
+    simp [St.init, St.objects, St.sids, St.allocHids, St.partialIds, List.count_append]
 
 theorem Inv.run (eps : List (Nat × Nat)) (nres : Nat) (es : List Event) : Inv ((St.init eps nres).run es) :=
   Inv.closed.run (Inv.init eps nres) es
